@@ -13,13 +13,13 @@ import (
 
 // Decoded is struct audit_rule_data read at fixed offsets.
 type Decoded struct {
-	Flags, Action, FieldCount uint32
-	Mask                      [64]uint32
+	Flags, Action, FieldCount  uint32
+	Mask                       [64]uint32
 	Fields, Values, FieldFlags [64]uint32
-	BufLen                    uint32
-	Buf                       []byte
-	Tail                      []byte // bytes after header+buflen (padding)
-	Len                       int
+	BufLen                     uint32
+	Buf                        []byte
+	Tail                       []byte // bytes after header+buflen (padding)
+	Len                        int
 }
 
 // Decode reads a wire image. It fails only when the image is shorter than the header.
